@@ -49,6 +49,11 @@ func newObsHTTP(srv *vgirpc.Server, batchLimit int) *vgirpc.HttpServer {
 	if batchLimit > 0 {
 		hs.SetProducerBatchLimit(batchLimit)
 	}
+	// the HTML pages are rendered on a server's first request; they are not
+	// this group's subject and a fresh server is built for every case
+	hs.SetEnableLandingPage(false)
+	hs.SetEnableDescribePage(false)
+	hs.SetEnableNotFoundPage(false)
 	return hs
 }
 
@@ -173,7 +178,7 @@ type hCall struct {
 	Cancel     bool              `json:"cancel,omitempty"`    // exchange: finish with a cancel continuation
 	RequestID  string            `json:"request_id,omitempty"`
 	XRequestID string            `json:"x_request_id,omitempty"`
-	AcceptZstd bool              `json:"accept_zstd,omitempty"` // X-VGI-Accept-Encoding: zstd
+	Accept     string            `json:"accept,omitempty"`   // "" | x:zstd | x:gzip | std:zstd | std:gzip (X-VGI-Accept-Encoding / Accept-Encoding)
 	ReqZstd    bool              `json:"req_zstd,omitempty"`    // request body sent zstd-compressed
 	// trace context sent with every request of the call (C43)
 	Traceparent string `json:"traceparent,omitempty"`
@@ -263,8 +268,11 @@ func driveHCall(h http.Handler, c hCall, baseHdr map[string]string, each func(hS
 	for k, v := range baseHdr {
 		hdr[k] = v
 	}
-	if c.AcceptZstd {
-		hdr["X-VGI-Accept-Encoding"] = "zstd"
+	switch {
+	case strings.HasPrefix(c.Accept, "x:"):
+		hdr["X-VGI-Accept-Encoding"] = c.Accept[2:]
+	case strings.HasPrefix(c.Accept, "std:"):
+		hdr["Accept-Encoding"] = c.Accept[4:]
 	}
 	if c.XRequestID != "" {
 		hdr["X-Request-ID"] = c.XRequestID
@@ -323,8 +331,8 @@ func driveHCall(h http.Handler, c hCall, baseHdr map[string]string, each func(hS
 		vals := append([]string{cursor, call}, extraVals...)
 		body := lib.EncodeStream(b.Schema(), lib.WithMeta(b, keys, vals))
 		// continuations carry no request metadata of their own: trace context
-		// can only travel in the HTTP headers
-		return post("cont", "/"+c.Method+"/exchange", body, true)
+		// can only travel in the HTTP headers (so none is sent with TraceVia=meta)
+		return post("cont", "/"+c.Method+"/exchange", body, headerTrace)
 	}
 	if c.Kind == "producer" {
 		for i := 0; i < maxProducerConts && cursor != ""; i++ {
@@ -413,6 +421,16 @@ func genHCall(t *rapid.T, i int) hCall {
 		c.Cancel = rapid.IntRange(0, 3).Draw(t, "hcancel") == 0
 	}
 	if c.Stream != nil {
+		// the shared turn generator fails a third of the turns; streams that
+		// live for several continuations are what this group is after
+		for j := range c.Stream.Turns {
+			switch c.Stream.Turns[j].Act {
+			case "error", "emit2", "emit_then_error", "finishx_err", "noemit":
+				if rapid.IntRange(0, 2).Draw(t, "hkeepfail") != 0 {
+					c.Stream.Turns[j].Act, c.Stream.Turns[j].Err = "emit", nil
+				}
+			}
+		}
 		if rapid.IntRange(0, 6).Draw(t, "hsbad") == 0 {
 			c.BadParams = []string{"wrongtype", "extracol", "renamed"}[rapid.IntRange(0, 2).Draw(t, "hsbadk")]
 		}
@@ -429,7 +447,7 @@ func genHCall(t *rapid.T, i int) hCall {
 	if rapid.IntRange(0, 2).Draw(t, "hxrid") == 0 {
 		c.XRequestID = fmt.Sprintf("xrid-%d", i)
 	}
-	c.AcceptZstd = rapid.IntRange(0, 2).Draw(t, "haccept") != 0
+	c.Accept = []string{"", "", "x:zstd", "x:zstd", "x:gzip", "std:zstd", "std:gzip"}[rapid.IntRange(0, 6).Draw(t, "haccept")]
 	c.ReqZstd = rapid.IntRange(0, 3).Draw(t, "hreqz") == 0
 	return c
 }
